@@ -462,6 +462,9 @@ func Build(sh *engine.Shape) (*Frame, error) {
 // signPrefix is the store-type byte the signer actually prepends (the
 // prescribed one unless the shape says the publisher is Byzantine).
 func signPrefix(sh *engine.Shape, prescribed []byte) []byte {
+	if sh.Prefix < 0 {
+		return nil // signs without any store-type byte
+	}
 	if sh.Prefix != 0 {
 		return []byte{byte(sh.Prefix)}
 	}
